@@ -10,7 +10,8 @@ open Tsh Tsh.Tr
 /-- sorts of line sequences -/
 inductive K
   | blk                -- a sequence of complete commands
-  | tail               -- the `elif … / else …` continuation of an open `if`
+  | elifs              -- the `elif …` branches of an open `if`
+  | els                -- the optional `else …` branch of an open `if`
   | incr (n : Nat)     -- the guarded increment part of loop number `n`
 deriving DecidableEq
 
@@ -20,9 +21,9 @@ deriving DecidableEq
 inductive Shape : K → Nat → Nat → List Line → Prop
   | nil {c} : Shape .blk c c []
   | simple {c c' l rest} : l.isSimple = true → Shape .blk c c' rest → Shape .blk c c' (l :: rest)
-  | ifChain {c c1 c2 c3 cond body tail rest} :
-      Shape .blk c c1 body → body ≠ [] → Shape .tail c1 c2 tail → Shape .blk c2 c3 rest →
-      Shape .blk c c3 (.ifStart "if" cond :: (body ++ (tail ++ .fi :: rest)))
+  | ifChain {c c1 c2 c3 c4 cond body elifs els rest} :
+      Shape .blk c c1 body → body ≠ [] → Shape .elifs c1 c2 elifs → Shape .els c2 c3 els → Shape .blk c3 c4 rest →
+      Shape .blk c c4 (.ifStart "if" cond :: (body ++ (elifs ++ (els ++ .fi :: rest))))
   | loop {c c1 c2 c3 c4 x incr condLines body rest} :
       Shape (.incr c) (c + 1) c1 incr → Shape .blk c1 c2 condLines → Shape .blk c2 c3 body → body ≠ [] →
       Shape .blk c3 c4 rest →
@@ -30,13 +31,14 @@ inductive Shape : K → Nat → Nat → List Line → Prop
   | func {c c1 c2 n params body rest} :
       (∀ l ∈ params, l.isSimple = true) → Shape .blk c c1 body → body ≠ [] → Shape .blk c1 c2 rest →
       Shape .blk c c2 (.funcStart n :: (params ++ (body ++ .funcEnd :: rest)))
-  | tailNil {c} : Shape .tail c c []
-  | tailElif {c c1 c2 cond body tail} :
-      Shape .blk c c1 body → body ≠ [] → Shape .tail c1 c2 tail →
-      Shape .tail c c2 (.ifStart "elif" cond :: (body ++ tail))
-  | tailElse {c c1 body} : Shape .blk c c1 body → body ≠ [] → Shape .tail c c1 (.else_ :: body)
+  | elifsNil {c} : Shape .elifs c c []
+  | elifsCons {c c1 c2 cond body tail} :
+      Shape .blk c c1 body → body ≠ [] → Shape .elifs c1 c2 tail →
+      Shape .elifs c c2 (.ifStart "elif" cond :: (body ++ tail))
+  | elsNone {c} : Shape .els c c []
+  | elsSome {c c1 body} : Shape .blk c c1 body → body ≠ [] → Shape .els c c1 (.else_ :: body)
   | incrNone {n c} : Shape (.incr n) c c []
-  | incrSome {n c c1 body} : Shape .blk c c1 body → Shape (.incr n) c c1 (.incrStart n :: (body ++ [.fi, .incrFlagSet n]))
+  | incrSome {n c c1 body} : Shape .blk c c1 body → body ≠ [] → Shape (.incr n) c c1 (.incrStart n :: (body ++ [.fi, .incrFlagSet n]))
 
 theorem Shape.mono {k lo hi ls} (h : Shape k lo hi ls) : lo ≤ hi := by
   induction h <;> omega
@@ -54,9 +56,9 @@ theorem Shape.append_aux {k a b x} (h : Shape k a b x) :
   induction h with
   | nil => intro _ c y hy; simpa using hy
   | simple hl _ ih => intro hk c y hy; exact Shape.simple hl (ih hk hy)
-  | @ifChain c0 c1 c2 c3 cond body tail rest hb hne ht _ _ _ ihr =>
+  | @ifChain c0 c1 c2 c3 c4 cond body elifs els rest hb hne ht he _ _ _ _ ihr =>
     intro hk c y hy
-    have := Shape.ifChain (cond := cond) hb hne ht (ihr rfl hy)
+    have := Shape.ifChain (cond := cond) hb hne ht he (ihr rfl hy)
     simpa [List.append_assoc] using this
   | @loop c0 c1 c2 c3 c4 x incr condLines body rest hi hc hb hne _ _ _ _ ihr =>
     intro hk c y hy
@@ -66,9 +68,10 @@ theorem Shape.append_aux {k a b x} (h : Shape k a b x) :
     intro hk c y hy
     have := Shape.func (n := n) hp hb hne (ihr rfl hy)
     simpa [List.append_assoc] using this
-  | tailNil => intro hk; cases hk
-  | tailElif => intro hk; cases hk
-  | tailElse => intro hk; cases hk
+  | elifsNil => intro hk; cases hk
+  | elifsCons => intro hk; cases hk
+  | elsNone => intro hk; cases hk
+  | elsSome => intro hk; cases hk
   | incrNone => intro hk; cases hk
   | incrSome => intro hk; cases hk
 
@@ -108,17 +111,18 @@ theorem Shape.balanced {k lo hi ls} (h : Shape k lo hi ls) : depthSum ls = 0 := 
   induction h with
   | nil => simp [depthSum]
   | simple hl _ ih => simp [depthSum, depthDelta_simple hl, ih]
-  | ifChain _ _ _ _ ihb iht ihr =>
-    simp [depthSum, depthSum_append, depthDelta, ihb, iht, ihr]
+  | ifChain _ _ _ _ _ ihb iht ihe ihr =>
+    simp [depthSum, depthSum_append, depthDelta, ihb, iht, ihe, ihr]
   | loop _ _ _ _ _ ihi ihc ihb ihr =>
     simp [depthSum, depthSum_append, depthDelta, ihi, ihc, ihb, ihr]
   | func hp _ _ _ ihb ihr =>
     simp [depthSum, depthSum_append, depthDelta, depthSum_simples _ hp, ihb, ihr]
-  | tailNil => simp [depthSum]
-  | tailElif _ _ _ ihb iht => simp [depthSum, depthSum_append, depthDelta, ihb, iht]
-  | tailElse _ _ ihb => simp [depthSum, depthDelta, ihb]
+  | elifsNil => simp [depthSum]
+  | elifsCons _ _ _ ihb iht => simp [depthSum, depthSum_append, depthDelta, ihb, iht]
+  | elsNone => simp [depthSum]
+  | elsSome _ _ ihb => simp [depthSum, depthDelta, ihb]
   | incrNone => simp [depthSum]
-  | incrSome _ ihb => simp [depthSum, depthSum_append, depthDelta, ihb]
+  | incrSome _ _ ihb => simp [depthSum, depthSum_append, depthDelta, ihb]
 
 /-- loop numbers whose flag variable is initialised in a line sequence, in order -/
 def flagInits : List Line → List Nat
@@ -156,10 +160,10 @@ theorem Shape.flags {k lo hi ls} (h : Shape k lo hi ls) : flagInits ls = List.ra
   induction h with
   | nil => simp [flagInits]
   | simple hl _ ih => rw [flagInits_simple_cons hl, ih]
-  | ifChain hb _ ht hr ihb iht ihr =>
-    have m1 := hb.mono; have m2 := ht.mono; have m3 := hr.mono
-    simp only [flagInits, flagInits_append, ihb, iht, ihr]
-    rw [range'_split _ _ _ m2 m3, range'_split _ _ _ m1 (by omega)]
+  | ifChain hb _ ht he hr ihb iht ihe ihr =>
+    have m1 := hb.mono; have m2 := ht.mono; have m3 := he.mono; have m4 := hr.mono
+    simp only [flagInits, flagInits_append, ihb, iht, ihe, ihr]
+    rw [range'_split _ _ _ m3 m4, range'_split _ _ _ m2 (by omega), range'_split _ _ _ m1 (by omega)]
   | @loop c c1 c2 c3 c4 x incr condLines body rest hi hc hb _ hr ihi ihc ihb ihr =>
     have m1 := hi.mono; have m2 := hc.mono; have m3 := hb.mono; have m4 := hr.mono
     simp only [flagInits, flagInits_append, ihi, ihc, ihb, ihr]
@@ -170,13 +174,37 @@ theorem Shape.flags {k lo hi ls} (h : Shape k lo hi ls) : flagInits ls = List.ra
     have m1 := hb.mono; have m2 := hr.mono
     simp only [flagInits, flagInits_append, flagInits_simples _ hp, ihb, ihr, List.nil_append]
     rw [range'_split _ _ _ m1 m2]
-  | tailNil => simp [flagInits]
-  | tailElif hb _ ht ihb iht =>
+  | elifsNil => simp [flagInits]
+  | elifsCons hb _ ht ihb iht =>
     have m1 := hb.mono; have m2 := ht.mono
     simp only [flagInits, flagInits_append, ihb, iht]
     rw [range'_split _ _ _ m1 m2]
-  | tailElse _ _ ihb => simp [flagInits, ihb]
+  | elsNone => simp [flagInits]
+  | elsSome _ _ ihb => simp [flagInits, ihb]
   | incrNone => simp [flagInits]
-  | incrSome _ ihb => simp [flagInits, flagInits_append, ihb]
+  | incrSome _ _ ihb => simp [flagInits, flagInits_append, ihb]
+
+/-- lines that end a body -/
+def Line.isCloser : Line → Bool
+  | .fi | .else_ | .funcEnd | .done => true
+  | .ifStart w _ => w != "if"
+  | _ => false
+
+/-- a non-empty command sequence starts with a command, never with a closer: together with the
+    non-empty bodies of the grammar, no `then`/`else`/`do`/`{` is directly followed by its closer -/
+theorem Shape.head_not_closer {k lo hi ls} (h : Shape k lo hi ls) :
+    k = .blk → ∀ l rest, ls = l :: rest → l.isCloser = false := by
+  cases h with
+  | nil => intro _ l rest h; simp at h
+  | @simple _ _ l0 _ hl _ => intro _ l rest h; simp at h; obtain ⟨rfl, _⟩ := h; cases l0 <;> simp_all [Line.isSimple, Line.isCloser]
+  | ifChain => intro _ l rest h; simp at h; rw [← h.1]; simp [Line.isCloser]
+  | loop => intro _ l rest h; simp at h; rw [← h.1]; simp [Line.isCloser]
+  | func => intro _ l rest h; simp at h; rw [← h.1]; simp [Line.isCloser]
+  | elifsNil => intro hk; cases hk
+  | elifsCons => intro hk; cases hk
+  | elsNone => intro hk; cases hk
+  | elsSome => intro hk; cases hk
+  | incrNone => intro hk; cases hk
+  | incrSome => intro hk; cases hk
 
 end Tsh.Bash
